@@ -259,11 +259,12 @@ fn twin_runs(ctx: &mut Ctx) {
         let seed = rng.next_u64();
         let nsteps = 30 + rng.below(60);
         // H: plain run, recording the observable trace
-        let run = |ctx: &mut Ctx, insert: bool| -> Option<(Vec<String>, usize)> {
+        let run = |ctx: &mut Ctx, insert: bool| -> Option<(Vec<String>, usize, Vec<u64>)> {
             let mut r = Rng::new(seed);
             let mut hostile = Rng::new(seed ^ 0x5151);
             let mut w = Walk::new(cfg.clone(), &p, &mut r).ok()?;
             let mut inserted = 0usize;
+            let mut marked: Vec<u64> = Vec::new();
             let mut obs: Vec<String> = Vec::new();
             for _ in 0..nsteps {
                 let before = w.sim.nsteps;
@@ -276,8 +277,20 @@ fn twin_runs(ctx: &mut Ctx) {
                     let mark = w.sim.nsteps;
                     let tlen = w.sim.trace.len();
                     // a buffer of a kind that must be rejected
-                    let k = hostile.below(4);
+                    // kind 4: a response that fails authentication for a request that is awaiting
+                    // one (unreliable transport, credentials configured): rejected, and the one
+                    // documented exception applies to THAT transaction only
+                    let awaiting: Vec<(crate::sim::Id, u16, u64)> =
+                        w.sim.txs.iter().filter(|t| t.state == crate::sim::TxState::Awaiting).map(|t| (t.id, t.method, t.seq as u64)).collect();
+                    let can_mark = w.sim.cfg.reliable.is_none() && w.sim.cfg.mech != Mech::None && !awaiting.is_empty();
+                    let k = hostile.below(if can_mark { 6 } else { 4 });
                     let bytes = match k {
+                        4 | 5 => {
+                            let (id, method, seq) = *hostile.pick(&awaiting);
+                            marked.push(seq);
+                            let integ = hostile.pick(&[crate::server::Integ::MiBad, crate::server::Integ::ShaBad, crate::server::Integ::None, crate::server::Integ::MiWrongKey]).clone();
+                            w.resp.bad_auth(&id, method, integ, None)
+                        }
                         0 => crate::mutate::random_message(&mut hostile),
                         1 => {
                             let mut id = [0u8; 12];
@@ -311,13 +324,24 @@ fn twin_runs(ctx: &mut Ctx) {
                     }
                 }
             }
-            Some((obs, inserted))
+            Some((obs, inserted, marked))
         };
         let h = run(ctx, false);
         let h2 = run(ctx, true);
-        if let (Some((a, _)), Some((b, inserted))) = (h, h2) {
+        if let (Some((mut a, _, _)), Some((mut b, inserted, marked))) = (h, h2) {
             ctx.count("c17.twin-histories");
             ctx.count_n("c17.twin-inserted-rejections", inserted as u64);
+            ctx.count_n("c17.twin-inserted-auth-failures-for-awaiting", marked.len() as u64);
+            // the exception: the eventual time-out of exactly those transactions may read
+            // protection-violated instead of timed-out; nothing else may differ
+            for seq in &marked {
+                let (pv, to) = (format!("Failed(T{}, ProtectionViolated)", seq), format!("Failed(T{}, TimedOut)", seq));
+                for l in a.iter_mut().chain(b.iter_mut()) {
+                    if l.contains(&pv) {
+                        *l = l.replace(&pv, &to);
+                    }
+                }
+            }
             if a != b {
                 let i = a.iter().zip(b.iter()).position(|(x, y)| x != y).unwrap_or(a.len().min(b.len()));
                 ctx.violation(
